@@ -52,7 +52,9 @@ func (ex *Exec) step(st *State, fc *FnCtx, in ssa.Instruction, pred *ssa.BasicBl
 			v := ex.loadH(st, st.heap, p)
 			if p.Cell == nil {
 				v = ex.define(st, "ld", v)
-				ex.assumeLoaded(st, v, x.Type())
+				for _, f := range ex.wellTyped(v, x.Type(), ex.loadBound(st, p), 0) {
+					st.assume(f)
+				}
 			}
 			st.env[x] = v
 		case token.NOT:
@@ -205,7 +207,14 @@ func (ex *Exec) step(st *State, fc *FnCtx, in ssa.Instruction, pred *ssa.BasicBl
 	case *ssa.Range:
 		switch tt := x.X.Type().Underlying().(type) {
 		case *types.Map:
-			st.env[x] = &RangeIter{Map: ex.term(st, x.X), KT: tt.Key(), VT: tt.Elem()}
+			st.env[x] = &RangeIter{Map: ex.term(st, x.X), KT: tt.Key(), VT: tt.Elem(), Instr: x}
+			ks := u.sortOf(tt.Key())
+			vs := arraySort(ks, sBool)
+			if st.visited == nil {
+				st.visited = map[*ssa.Range]Term{}
+			}
+			st.visited[x] = Term{"((as const " + vs + ") false)", vs}
+			st.lastRange = x
 		default:
 			unsupported("range over %s", x.X.Type())
 		}
@@ -219,6 +228,21 @@ func (ex *Exec) step(st *State, fc *FnCtx, in ssa.Instruction, pred *ssa.BasicBl
 		ex.assumeWellTyped(st, kv, it.KT)
 		pres := sel(sel(ex.mapPComp(st.heap, it.KT, it.VT), it.Map), kv)
 		st.assume(implies(okv, and(not(eq(it.Map, tNull)), pres)))
+		if vis, ok := st.visited[it.Instr]; ok {
+			// every key is yielded at most once, and when the iteration ends
+			// every key of the map has been yielded (the map is assumed not
+			// to be modified by the loop body: checked by the mod-set of the loop)
+			st.assume(implies(okv, not(sel(vis, kv))))
+			ex.counter++
+			q := fmt.Sprintf("vk_%d", ex.counter)
+			qt := Term{q, kv.So}
+			all := fmt.Sprintf("(forall ((%s %s)) (! (=> %s %s) :pattern (%s) :pattern (%s)))", q, kv.So,
+				and(not(eq(it.Map, tNull)), sel(sel(ex.mapPComp(st.heap, it.KT, it.VT), it.Map), qt)).S, sel(vis, qt).S,
+				sel(vis, qt).S, sel(sel(ex.mapPComp(st.heap, it.KT, it.VT), it.Map), qt).S)
+			st.assume(implies(not(okv), Term{all, sBool}))
+			st.visited[it.Instr] = ex.define(st, "vis", ite(okv, store(vis, kv, tTrue), vis))
+			st.lastRange = it.Instr
+		}
 		// a nil or empty map yields no iteration
 		st.assume(implies(or(eq(it.Map, tNull), eq(sel(ex.mapLComp(st.heap), it.Map), bv64(0))), not(okv)))
 		vv := ex.define(st, "rng_v", sel(sel(ex.mapVComp(st.heap, it.KT, it.VT), it.Map), kv))
